@@ -90,8 +90,8 @@ def case_runs(c):
 
 def run(ctx):
     quick = ctx.tier == "quick"
-    nrandom = 60 if quick else 1200
-    nconc = 60 if quick else 1200
+    nrandom = 60 if quick else 800
+    nconc = 60 if quick else 800
     nsim = 0 if quick else 400
 
     # ---- 0. contexts (chain facts + universes) out of the spec ---------------------------
